@@ -415,6 +415,34 @@ def stack_margin(ctx, f, key):
     return bad, n_push[0]
 
 
+def _arr_matches(f, base, arr, N):
+    """does expression `base` denote the array the table calls `arr`?  Member arrays are
+    identified by their field name, local arrays by being a local array of the limit's
+    extent (the spelling of the variable that holds them does not matter)"""
+    base = cu.strip_casts(f, base)
+    if base is None:
+        return False
+    if '->' in arr or '.' in arr:
+        fld = arr.replace('->', '.').split('.')[-1]
+        return base['k'] == 'member' and base['fld'] == fld
+    if base['k'] != 'ref':
+        return False
+    if base['name'] == arr:
+        return True
+    ext = [l.get('extent') for l in f.locals if l['name'] == base['name']]
+    return bool(ext) and ext[0] == N
+
+
+def _norm_index(txt):
+    """index designator with variable spellings removed: '->field' (+ '++') or '<local>'"""
+    t = txt.strip()
+    inc = t.endswith('++')
+    core = t[:-2] if inc else t
+    if '->' in core or '.' in core:
+        return '->' + core.replace('->', '.').split('.')[-1] + ('++' if inc else '')
+    return '<local>' + ('++' if inc else '')
+
+
 def r15_2(ctx):
     prog = ctx.prog
     tu = prog.tu('libyara/exec.c')
@@ -456,14 +484,14 @@ def r15_2(ctx):
                 lhs = f.kid(a, 0)
             x = lhs
             while x is not None and x['k'] in ('member', 'sub', 'cast'):
-                if x['k'] == 'sub' and f.show(f.kid(x, 0)) == arr:
+                if x['k'] == 'sub' and _arr_matches(f, f.kid(x, 0), arr, N):
                     writes.append((a, x))
                 x = f.kid(x, 0)
         # also address-of (loop_ctx = &compiler->loop[idx]) used to write later
         for a in f.all_nodes():
             if a['k'] == 'un' and a['op'] == '&':
                 x = cu.strip_casts(f, f.kid(a, 0))
-                if x is not None and x['k'] == 'sub' and f.show(f.kid(x, 0)) == arr:
+                if x is not None and x['k'] == 'sub' and _arr_matches(f, f.kid(x, 0), arr, N):
                     writes.append((a, x))
         ctx.require(writes or ctx.fixture, 'no access to %s in %s' % (arr, fname))
         occ = 0
@@ -471,13 +499,16 @@ def r15_2(ctx):
             idx = cu.strip_casts(f, f.kid(sub, 1))
             c = cu.const_of(idx)
             occ += 1
-            key = '%s:%s[%s]%s' % (fname, arr, f.show(idx)[:28], '')
+            key = '%s:%s[%s]%s' % (fname, arr, _norm_index(f.show(idx)) if cu.const_of(idx) is None else f.show(idx)[:28], '')
             if c is not None:
                 ctx.ob('R15.2', key, 0 <= c < N, f.loc(a), 'constant index %d < %s' % (c, lim))
                 continue
             ok = _index_bounded(ctx, f, a, idx, N)
-            fk = (fname, arr, f.show(idx))
-            if not ok and fk in FROZEN_INDEX:
+            fk = None
+            for k3 in FROZEN_INDEX:
+                if k3[0] == fname and k3[1] == arr and _norm_index(k3[2]) == _norm_index(f.show(idx)):
+                    fk = k3
+            if not ok and fk is not None:
                 # the same index expression may occur guarded elsewhere; keep
                 # the frozen entry as one obligation
                 ctx.ob('R15.2', 'frozen:%s:%s[%s]' % fk, True, f.loc(a), FROZEN_INDEX[fk])
@@ -759,26 +790,39 @@ def r15_3(ctx):
         if f is None:
             ctx.require(ctx.fixture, '%s not found' % fname)
             continue
-        polls = [c for c in f.calls() if c.get('callee') == 'yr_stopwatch_elapsed_ns']
+        via = cu.helpers_reaching(prog, f, 'yr_stopwatch_elapsed_ns')
+        polls = [c for c in f.calls() if c.get('callee') == 'yr_stopwatch_elapsed_ns' or c.get('callee') in via]
         ctx.require(polls, 'no timeout poll in ' + fname)
         poll = polls[-1] if fname == 'yr_execute_code' else polls[0]
         loop = None
-        guard = None
         for a in f.ancestors(poll):
-            if a['k'] == 'if':
-                guard = a
             if a['k'] in ('while', 'for', 'do'):
                 loop = a
                 break
-        ctx.require(loop is not None and guard is not None, 'poll in %s is not inside a loop' % fname)
-        gcond = f.kid(guard, 0)
-        gfirst = None
+        ctx.require(loop is not None, 'poll in %s is not inside a loop' % fname)
         nbm = f.node_block()
-        for x in f.walk(gcond):
-            if x['i'] in nbm:
-                gfirst = x
-        # any element of the guard condition counts as "the poll was considered"
-        gset = set(x['i'] for x in f.walk(gcond))
+        # an iteration has "considered the deadline" when it executed the poll or a
+        # timeout guard: a condition that mentions the timeout setting, a modulo test of
+        # the position, or a test of a counter that is stepped in the test itself
+        gset = set([poll['i']])
+        guard_txt = []
+        for x in f.walk(loop):
+            if x['k'] != 'bin' or x['op'] not in ('==', '!=', '<', '>', '<=', '>='):
+                continue
+            sides = [cu.strip_casts(f, y) for y in f.kids(x)]
+            is_guard = any(m['k'] == 'member' and m['fld'] == 'timeout' for m in f.walk(x))
+            for y, z in ((sides[0], sides[1]), (sides[1], sides[0])):
+                if y is None or z is None or cu.const_of(z) is None:
+                    continue
+                if y['k'] == 'bin' and y['op'] == '%':
+                    is_guard = True
+                if y['k'] == 'un' and y['op'] in ('++', 'post++'):
+                    is_guard = True
+            if is_guard:
+                gset |= set(n_['i'] for n_ in f.walk(x))
+                guard_txt.append(f.show(x)[:40])
+        guard = poll
+        gcond = poll
         # loop header block = block whose terminator is the loop statement
         header = [b for b, bd in f.blocks.items() if bd.get('term') == loop['i']]
         ctx.require(header, 'loop header block not found in ' + fname)
@@ -809,8 +853,8 @@ def r15_3(ctx):
         except paths.Budget:
             ctx.require(False, 'R15.3 budget exceeded in ' + fname)
         ctx.ob('R15.3', '%s:timeout-poll-on-every-iteration' % fname, not bad, f.loc(guard),
-               'every path from the loop header back to it evaluates the timeout guard `%s`' %
-               f.show(gcond)[:60] if not bad else
+               'every path from the loop header back to it evaluates a timeout guard (%s) or the poll' %
+               ', '.join(guard_txt[:3]) if not bad else
                'an iteration of the main loop of %s can return to the loop header without '
                'evaluating the timeout guard (a `continue` or early back edge bypasses it): '
                'a scan with a timeout may never notice its deadline' % fname)
@@ -831,6 +875,35 @@ FIXTURES = {
 }
 
 
+def r15_4(ctx):
+    """time-limit arithmetic does not overflow before it is widened: every
+    multiplication by a unit-conversion constant (>= 10^6: microseconds, nanoseconds
+    per second) is evaluated in a 64-bit type.  `int timeout * 1000000000` in 32 bits
+    wraps for every timeout of 3 s or more."""
+    n = 0
+    occ15 = {}
+    for f in ctx.prog.fns():
+        if not (f.file.startswith('libyara/') or f.file.startswith('cli/') or ctx.fixture):
+            continue
+        if f.name.endswith(('yyparse', 'yylex')):
+            continue
+        for x in f.all_nodes():
+            if x['k'] != 'bin' or x['op'] != '*':
+                continue
+            ks = [cu.const_of(cu.strip_casts(f, y)) for y in f.kids(x)]
+            if not any(k is not None and k >= 1000000 for k in ks) or all(k is not None for k in ks):
+                continue
+            n += 1
+            occ15[f.name] = occ15.get(f.name, 0) + 1
+            t = (x.get('t') or '')
+            wide = any(w in t for w in ('long', '64', 'size_t', 'double', 'float', 'time_t'))
+            ctx.ob('R15.4', '%s:unit-conversion#%d:64-bit' % (f.name, occ15[f.name]), wide, f.loc(x),
+                   'the unit conversion is evaluated as %s' % t if wide else
+                   'the unit conversion `%s` is evaluated as %s: it wraps for values a time limit '
+                   'can take, before the result is widened' % (f.show(x)[:50], t))
+    ctx.count('unit_conversions', n)
+
+
 def run(ctx):
     r15_1(ctx)
     ctx.floor('R15.1', 18)
@@ -838,3 +911,5 @@ def run(ctx):
     ctx.floor('R15.2', 18)
     r15_3(ctx)
     ctx.floor('R15.3', 2)
+    r15_4(ctx)
+    ctx.floor('R15.4', 2)
